@@ -33,7 +33,7 @@ def generate(rng, seed, index, tier):
     if rng.random() < 0.3:
         kw["time_limit"] = float(rng.choice([0.05, 0.5, 3.0]))
     kw["display_interval"] = float(rng.choice([0.0, 0.1, 1e18]))
-    return gen.base_world(seed, ID, index, spec, x0, y0, kw, clock=clock, obs=gen.gen_obs(rng), case={"faulted": bool(rng.random() < 0.4), "pts_seed": int(rng.integers(0, 2**31))})
+    return gen.base_world(seed, ID, index, spec, x0, y0, kw, clock=clock, obs=gen.gen_obs(rng), case={"resolve": bool(rng.random() < 0.2), "faulted": bool(rng.random() < 0.4), "pts_seed": int(rng.integers(0, 2**31))})
 
 
 def _nontrivial(ex, bump):
